@@ -115,6 +115,20 @@ pub async fn backup(
 
     // Create the new band only after finding the basis band!
     let band = Band::create(archive).await?;
+    // A garbage collection that took its lock after the check at the top, and has
+    // already made its own check for new bands, cannot see this backup. Now that the
+    // new band is visible to any later collection, look at the archive directory once
+    // more and make sure no collection is under way before relying on any block that
+    // is already in the archive.
+    if archive
+        .transport()
+        .list_dir("")
+        .await?
+        .iter()
+        .any(|entry| entry.name == gc_lock::GC_LOCK)
+    {
+        return Err(Error::GarbageCollectionLockHeld);
+    }
     let index_writer = band.index_writer(monitor.clone());
     let block_dir = archive.block_dir().await?;
     let mut writer = BackupWriter {
